@@ -954,7 +954,7 @@ class SP(Robot):
         return np.copy(self.lengths), bottom_plate_pos, top_plate_pos
 
     def _FKSolve(self, L : 'np.ndarray[float]', plate_pos : tm = None, 
-            protect : bool = False):
+            protect : bool = False, allow_fallback : bool = True):
         """
         Solve FK using an older version of python solver, no jacobian used.
         
@@ -999,7 +999,13 @@ class SP(Robot):
             if abs(abs(L[j]) - abs(nLens[j])) > 0.00001 or not self.validate(True):
                 #Start the Newton solver where this one started, not at its last trial point
                 self._current_plate_transform_local = init_local
-                return self._FKRaphson(L, plate_pos, protect)
+                if allow_fallback:
+                    return self._FKRaphson(L, plate_pos, protect, allow_fallback = False)
+                #Both solvers failed: give up at the neutral pose instead of recursing
+                self.fail_count += 1
+                self.IK(top_plate_pos = plate_pos @ self._nominal_plate_transform,
+                    bottom_plate_pos = plate_pos, protect = True)
+                return self.getBottomT(), self.getTopT()
         #If not "Protected" from recursion, call IK.
         if not protect:
             self.IK(protect = True)
@@ -1007,7 +1013,7 @@ class SP(Robot):
 
 
     def _FKRaphson(self, L : 'np.ndarray[float]', 
-            bottom_plate_pos : tm = None, protect : bool = False):
+            bottom_plate_pos : tm = None, protect : bool = False, allow_fallback : bool = True):
         """
         Solve FK using Newton Raphson method.
 
@@ -1086,7 +1092,12 @@ class SP(Robot):
             if self.debug:# pragma: no cover
                 disp("Raphson FK Failed due to: " + str(e))
             self.fail_count+=1
-            return self._FKSolve(L, bottom_plate_pos_backup, protect)
+            if allow_fallback:
+                return self._FKSolve(L, bottom_plate_pos_backup, protect, allow_fallback = False)
+            #Both solvers failed: give up at the neutral pose instead of recursing
+            self.IK(top_plate_pos = bottom_plate_pos_backup @ self._nominal_plate_transform,
+                bottom_plate_pos = bottom_plate_pos_backup, protect = True)
+            return self.getBottomT(), self.getTopT()
 
     """
     Validation and Corrective Action Helpers
